@@ -713,7 +713,72 @@ pub fn run(tier: Tier) -> i32 {
         let strings_attr_file: Vec<CharacterData> = strings_api.iter().filter(|s| !matches!(s, CharacterData::String(t) if t.contains('\u{0}') || t.trim_matches(|c: char| c.is_ascii_whitespace()).is_empty())).cloned().collect();
         roundtrip_attribute_file(&ctx, "attribute-string-through-file", p, *a, v_latest, &strings_attr_file, &done);
     }
-    for needed in ["element-float", "element-uint", "element-string-preserving", "attribute-string"] {
+    // ---- the lexical forms in slots of their own value type: a character element whose specification is the integer /
+    // numerical / boolean pattern takes every member (set_character_data, which validates with the published pattern),
+    // returns it unchanged, interprets it as the reference does, and a file holding it loads strictly with the same value
+    let typed_len = tier.pick(5usize, 6usize);
+    for (label, re, dfa, alpha) in [("integer-pattern", INT_RE, &int_dfa, &alpha_dedup), ("numerical-pattern", NUM_RE, &num_dfa, &alpha_dedup), ("boolean-pattern", BOOL_RE, &bool_dfa, &alpha_bool)] {
+        let slot = r.order.iter().find(|t| t.content_mode() == ContentMode::Characters && matches!(t.chardata_spec(), Some(CharacterDataSpec::Pattern { regex, .. }) if *regex == re)).map(|t| r.path[t].clone());
+        let Some(path) = slot else {
+            ctx.machinery_error(format!("no character element with the {label} found"));
+            continue;
+        };
+        routes.insert(label, path.last().unwrap().name.to_str());
+        let mut texts = members(dfa, alpha, typed_len);
+        match label {
+            "integer-pattern" => texts.extend(b_ints.iter().filter(|t| int_dfa.accepts(t.as_bytes())).cloned()),
+            "numerical-pattern" => texts.extend(b_floats.iter().filter(|t| num_dfa.accepts(t.as_bytes())).cloned()),
+            _ => {}
+        }
+        ctx.count(&format!("typed_slot_texts_{label}"), texts.len() as u64);
+        texts.par_chunks(512).for_each(|chunk| {
+            let Ok((_m, f, leaf)) = build_chain(&path, v_latest) else {
+                ctx.machinery_error(format!("cannot build chain for {label}"));
+                return;
+            };
+            for (i, text) in chunk.iter().enumerate() {
+                done.fetch_add(1, Ordering::Relaxed);
+                let w = |extra: serde_json::Value| json!({"kind": "typed-slot", "slot": label, "element": path.last().unwrap().name.to_str(), "text": text, "detail": extra});
+                let form = lexical_form(text);
+                match guarded(|| leaf.set_character_data(CharacterData::String(text.clone())).map(|_| leaf.character_data())) {
+                    Err(msg) => ctx.violation(format!("typed-slot|{label}|panic|{form}"), w(json!(msg))),
+                    Ok(Err(e)) => ctx.violation(format!("typed-slot|{label}|member-of-the-pattern-rejected|{form}"), w(json!(e.to_string()))),
+                    Ok(Ok(back)) => {
+                        if back != Some(CharacterData::String(text.clone())) {
+                            ctx.violation(format!("typed-slot|{label}|value-differs|{form}"), w(json!(format!("{back:?}"))));
+                        } else if let Some(back) = back {
+                            let ok = match label {
+                                "integer-pattern" => {
+                                    let (neg, mag) = ref_int(text);
+                                    let expect: Option<i128> = mag.to_u128().and_then(|m| if neg { 0i128.checked_sub_unsigned(m) } else { i128::try_from(m).ok() });
+                                    back.parse_integer::<i128>() == expect
+                                }
+                                "numerical-pattern" => same_f64(back.parse_float(), ref_float(text)),
+                                _ => back.parse_bool() == Some(text == "true" || text == "1"),
+                            };
+                            if !ok {
+                                ctx.violation(format!("typed-slot|{label}|interpretation-differs-from-reference|{form}"), w(json!({})));
+                            }
+                        }
+                    }
+                }
+                // through a file: every 16th text of the chunk and everything of at most 3 characters
+                if i % 16 == 0 || text.len() <= 3 {
+                    let r2 = guarded(|| -> Result<Option<CharacterData>, String> {
+                        let xml = f.serialize().map_err(|e| format!("serialize: {e}"))?;
+                        let m2 = AutosarModel::new();
+                        m2.load_buffer(xml.as_bytes(), "y.arxml", true).map_err(|e| format!("load: {e}"))?;
+                        let last = m2.elements_dfs().last().map(|(_, e)| e).ok_or("empty")?;
+                        Ok(last.character_data())
+                    });
+                    if leaf.character_data() == Some(CharacterData::String(text.clone())) && !matches!(&r2, Ok(Ok(Some(CharacterData::String(t)))) if t == text) {
+                        ctx.violation(format!("typed-slot|{label}|file-with-member-does-not-load-to-the-same-value|{form}"), w(json!(format!("{r2:?}"))));
+                    }
+                }
+            }
+        });
+    }
+    for needed in ["element-float", "element-uint", "element-string-preserving", "attribute-string", "integer-pattern", "numerical-pattern", "boolean-pattern"] {
         if !routes.contains_key(needed) {
             ctx.machinery_error(format!("no slot found for route {needed}"));
         }
